@@ -422,7 +422,8 @@ def check(ctx: Any, sc: dict[str, Any], out: dict[str, Any]) -> None:
     want = fr(0x12, bytes([0x00, src]))
     resp = [(t, f) for t, f in cfr if f[4:6] == b"\x00\x12"]
     stop = min(x for x in (closed_at, unspecified_from, 1e18) if x is not None)
-    reqs = [it["t"] for it in items if it["l"] == "A" and it["t"] < stop - TOL]
+    end_of_run = out["ops"][-1]["te"] if out["ops"] else 0.0  # afterwards the harness closes the transport: later alive checks cannot be answered
+    reqs = [it["t"] for it in items if it["l"] == "A" and it["t"] < stop - TOL and it["t"] < end_of_run - TOL]
     for i, t in enumerate(reqs):
         phase = "idle"
         for o in out["ops"]:
